@@ -42,6 +42,12 @@ Proof.
   destruct n; [congruence|reflexivity].
 Qed.
 
+Lemma first_len_ascii c : (c <? 128)%N = true -> utf8_first_len c = 1.
+Proof.
+  intros H. unfold utf8_first_len. apply N.ltb_lt in H.
+  assert (E : (c <? 192)%N = true) by (apply N.ltb_lt; lia). rewrite E. reflexivity.
+Qed.
+
 (* -c=value for a one-byte (ASCII) short name *)
 Theorem split_short_eq (c : N) (v : bytes) :
   (c <? 128)%N = true -> (c =? c_dash)%N = false ->
@@ -50,6 +56,7 @@ Proof.
   intros Hc Hd. unfold split_os_argument.
   change (negb (c_dash =? c_dash)%N) with false. cbn [negb]. rewrite Hd.
   cbn [split_first]. change (is_eq_byte c_eq) with true. cbn match.
+  rewrite (first_len_ascii c Hc). cbn [length Nat.min Nat.ltb Nat.leb].
   unfold str_ok, utf8_valid. cbn [utf8_decode]. rewrite Hc. reflexivity.
 Qed.
 
@@ -63,7 +70,7 @@ Proof.
   cbn [split_first]. unfold str_ok, utf8_valid. cbn [utf8_decode]. rewrite Hc. reflexivity.
 Qed.
 
-(* -cREST=more : a short name followed by text containing `=`; everything after the first BYTE is
+(* -cREST=more : a short name followed by text containing `=`; everything after the first CHARACTER is
    the value, including the `=` *)
 Theorem split_short_adj_eq (c : N) (v1 v2 : bytes) :
   (c <? 128)%N = true -> (c =? c_dash)%N = false -> no_eq v1 -> v1 <> [] ->
@@ -73,14 +80,96 @@ Proof.
   change (negb (c_dash =? c_dash)%N) with false. cbn [negb]. rewrite Hd.
   rewrite split_first_app by exact Hn.
   destruct v1 as [|b v1]; [congruence|].
+  rewrite (first_len_ascii c Hc). cbn [length Nat.min Nat.ltb Nat.leb firstn skipn].
   unfold str_ok, utf8_valid. cbn [utf8_decode]. rewrite Hc. reflexivity.
 Qed.
 
-(* the defect recorded as known finding C02-short-eq-multibyte: `-ж=1` is not split at all *)
-Theorem split_short_eq_multibyte_refuted :
-  exists c1 c2 v, utf8_valid [c1; c2] = true /\
-                  split_os_argument (c_dash :: c1 :: c2 :: c_eq :: v) = None.
-Proof. exists 208%N, 182%N, [49%N]. split; vm_compute; reflexivity. Qed.
+(* ---- short names of ANY character (after the fix: commit; before it `-ж=1` was not split at all: the name was cut
+   after its first BYTE -- the former known finding C02-short-eq-multibyte) *)
+Lemma utf8_decode_nil t : utf8_decode t = Some [] -> t = [].
+Proof.
+  destruct t as [|b0 t0]; [reflexivity|]. cbn [utf8_decode]. intros H. exfalso.
+  repeat match type of H with
+         | (if ?c then _ else _) = _ => destruct c
+         | match ?x with _ => _ end = _ => destruct x
+         | option_map _ ?o = _ => destruct o; cbn [option_map] in H
+         end; discriminate.
+Qed.
+
+Lemma cont_not_eq b : is_cont b = true -> is_eq_byte b = false.
+Proof.
+  unfold is_cont, is_eq_byte, c_eq. intros H. apply andb_prop in H. destruct H as [H _].
+  apply N.leb_le in H. apply N.eqb_neq. lia.
+Qed.
+
+Lemma ge_not_eq lo b : (lo <=? b)%N = true -> (128 <= lo)%N -> is_eq_byte b = false.
+Proof. unfold is_eq_byte, c_eq. intros H Hl. apply N.leb_le in H. apply N.eqb_neq. lia. Qed.
+
+(* a name that is exactly one character (1 to 4 bytes): `-X=value` gives the name X and every byte after the `=` *)
+Theorem split_short_eq_char (n v : bytes) (ch : char) :
+  utf8_decode n = Some [ch] -> (hd 0%N n =? c_dash)%N = false ->
+  split_os_argument (c_dash :: n ++ c_eq :: v) = Some (ATShort, n, Some v).
+Proof.
+  destruct n as [|b0 t0]; [discriminate|]. cbn [hd]. intros Hu Hd.
+  assert (Hv : str_ok (b0 :: t0) = true) by (unfold str_ok, utf8_valid; rewrite Hu; reflexivity).
+  cbn [utf8_decode] in Hu.
+  unfold split_os_argument. cbn [app]. change (negb (c_dash =? c_dash)%N) with false. cbn [negb]. rewrite Hd.
+  destruct (b0 <? 128)%N eqn:A1.
+  - (* one byte *)
+    destruct (utf8_decode t0) as [l|] eqn:E; [|discriminate]. cbn [option_map] in Hu. injection Hu as _ Hl. subst l.
+    apply utf8_decode_nil in E. subst t0. cbn [app split_first]. change (is_eq_byte c_eq) with true. cbn match.
+    rewrite (first_len_ascii b0 A1). cbn [length Nat.min Nat.ltb Nat.leb]. rewrite Hv. reflexivity.
+  - destruct ((194 <=? b0)%N && (b0 <=? 223)%N) eqn:A2.
+    + (* two bytes *)
+      destruct t0 as [|b1 t1]; [discriminate|]. destruct (is_cont b1) eqn:C1; [|discriminate].
+      destruct (utf8_decode t1) as [l|] eqn:E; [|discriminate]. cbn [option_map] in Hu. injection Hu as _ Hl. subst l.
+      apply utf8_decode_nil in E. subst t1. cbn [app split_first]. rewrite (cont_not_eq b1 C1).
+      change (is_eq_byte c_eq) with true. cbn match.
+      apply andb_prop in A2. destruct A2 as [L1 L2]. apply N.leb_le in L1. apply N.leb_le in L2.
+      assert (F : utf8_first_len b0 = 2).
+      { unfold utf8_first_len. assert (X1 : (b0 <? 192)%N = false) by (apply N.ltb_ge; lia).
+        assert (X2 : (b0 <? 224)%N = true) by (apply N.ltb_lt; lia). rewrite X1, X2. reflexivity. }
+      rewrite F. cbn [length Nat.min Nat.ltb Nat.leb]. rewrite Hv. reflexivity.
+    + destruct ((224 <=? b0)%N && (b0 <=? 239)%N) eqn:A3.
+      * (* three bytes *)
+        destruct t0 as [|b1 [|b2 t2]]; try discriminate.
+        match type of Hu with (if ?c then _ else _) = _ => destruct c eqn:C end; [|discriminate].
+        destruct (utf8_decode t2) as [l|] eqn:E; [|discriminate]. cbn [option_map] in Hu. injection Hu as _ Hl. subst l.
+        apply utf8_decode_nil in E. subst t2.
+        apply andb_prop in C. destruct C as [C C2]. apply andb_prop in C. destruct C as [Clo _].
+        assert (N1 : is_eq_byte b1 = false).
+        { eapply ge_not_eq; [exact Clo|]. destruct (b0 =? 224)%N; lia. }
+        cbn [app split_first]. rewrite N1, (cont_not_eq b2 C2). change (is_eq_byte c_eq) with true. cbn match.
+        apply andb_prop in A3. destruct A3 as [L1 L2]. apply N.leb_le in L1. apply N.leb_le in L2.
+        assert (F : utf8_first_len b0 = 3).
+        { unfold utf8_first_len. assert (X1 : (b0 <? 192)%N = false) by (apply N.ltb_ge; lia).
+          assert (X2 : (b0 <? 224)%N = false) by (apply N.ltb_ge; lia).
+          assert (X3 : (b0 <? 240)%N = true) by (apply N.ltb_lt; lia). rewrite X1, X2, X3. reflexivity. }
+        rewrite F. cbn [length Nat.min Nat.ltb Nat.leb]. rewrite Hv. reflexivity.
+      * destruct ((240 <=? b0)%N && (b0 <=? 244)%N) eqn:A4; [|discriminate].
+        (* four bytes *)
+        destruct t0 as [|b1 [|b2 [|b3 t3]]]; try discriminate.
+        match type of Hu with (if ?c then _ else _) = _ => destruct c eqn:C end; [|discriminate].
+        destruct (utf8_decode t3) as [l|] eqn:E; [|discriminate]. cbn [option_map] in Hu. injection Hu as _ Hl. subst l.
+        apply utf8_decode_nil in E. subst t3.
+        apply andb_prop in C. destruct C as [C C3]. apply andb_prop in C. destruct C as [C C2].
+        apply andb_prop in C. destruct C as [Clo _].
+        assert (N1 : is_eq_byte b1 = false).
+        { eapply ge_not_eq; [exact Clo|]. destruct (b0 =? 240)%N; lia. }
+        cbn [app split_first]. rewrite N1, (cont_not_eq b2 C2), (cont_not_eq b3 C3).
+        change (is_eq_byte c_eq) with true. cbn match.
+        apply andb_prop in A4. destruct A4 as [L1 L2]. apply N.leb_le in L1. apply N.leb_le in L2.
+        assert (F : utf8_first_len b0 = 4).
+        { unfold utf8_first_len. assert (X1 : (b0 <? 192)%N = false) by (apply N.ltb_ge; lia).
+          assert (X2 : (b0 <? 224)%N = false) by (apply N.ltb_ge; lia).
+          assert (X3 : (b0 <? 240)%N = false) by (apply N.ltb_ge; lia). rewrite X1, X2, X3. reflexivity. }
+        rewrite F. cbn [length Nat.min Nat.ltb Nat.leb]. rewrite Hv. reflexivity.
+Qed.
+
+(* the former witness of the defect: `-ж=1` *)
+Example split_short_eq_cyrillic :
+  split_os_argument [45; 208; 182; 61; 49]%N = Some (ATShort, [208; 182]%N, Some [49%N]).
+Proof. vm_compute. reflexivity. Qed.
 
 (* items that do not start with a dash, the lone dash, and the empty string are never names *)
 Theorem split_plain_word (w : bytes) :
